@@ -170,6 +170,12 @@ class ExcelOpxWrapper(ExcelWrapper):
             self._max_col_row[sheet] = worksheet.max_column, worksheet.max_row
         return self._max_col_row[sheet]
 
+    def record_used_areas(self):
+        """The used area of a sheet belongs to the workbook, note it before
+        any cell is read: openpyxl creates the cells it is asked for"""
+        for worksheet in self.workbook:
+            self.max_col_row(worksheet.title)
+
     @property
     def defined_names(self):
         if self.workbook is not None and self._defined_names is None:
@@ -256,6 +262,7 @@ class ExcelOpxWrapper(ExcelWrapper):
             self.workbook_dataonly = load_workbook(
                 self.filename, data_only=True)
         self.load_array_formulas()
+        self.record_used_areas()
 
     def load_array_formulas(self):
         # expand array formulas
@@ -409,6 +416,7 @@ class ExcelOpxWrapperNoData(ExcelOpxWrapper):
         self.workbook = workbook
         self.workbook_dataonly = workbook
         self.load_array_formulas()
+        self.record_used_areas()
 
     def get_range(self, address):
         data = super().get_range(address)
